@@ -16,3 +16,4 @@ INVARIANT TreeClosed
 INVARIANT NoIgnoredPending
 INVARIANT EmitBounded
 PROPERTY ForkLaw
+PROPERTY KillKidLaw
